@@ -117,6 +117,19 @@ RETCODE adfRenameEntry ( struct AdfVolume * const vol,
     tmpSect = entry.nextSameHash;
 
     entry.nextSameHash = 0;
+
+    /* the directory cache gets the new record first: this is the only step
+       that can fail for lack of space, and nothing else has changed yet */
+    if (isDIRCACHE(vol->dosType)) {
+        if (pSect==nPSect)
+            rc = adfUpdateCache ( vol, &parent,
+                                  (struct bEntryBlock*) &entry, TRUE );
+        else
+            rc = adfAddInCache ( vol, &nParent, &entry );
+        if ( rc != RC_OK )
+            return rc;
+    }
+
     rc = adfWriteEntryBlock ( vol, nSect, &entry );
     if ( rc != RC_OK )
         return rc;
@@ -212,19 +225,9 @@ RETCODE adfRenameEntry ( struct AdfVolume * const vol,
     if ( rc != RC_OK )
         return rc;
 
-    // update dircache
-    if (isDIRCACHE(vol->dosType)) {
-        if (pSect==nPSect) {
-            rc = adfUpdateCache ( vol, &parent,
-                                  (struct bEntryBlock*) &entry, TRUE );
-        }
-        else {
-            rc = adfDelFromCache ( vol, &parent, entry.headerKey );
-            if ( rc != RC_OK )
-                return rc;
-            rc = adfAddInCache ( vol, &nParent, &entry );
-        }
-    }
+    // update dircache : the record of the old directory goes
+    if ( isDIRCACHE(vol->dosType) && pSect != nPSect )
+        rc = adfDelFromCache ( vol, &parent, entry.headerKey );
 /*
     if (isDIRCACHE(vol->dosType) && pSect!=nPSect) {
         adfUpdateCache(vol, &nParent, (struct bEntryBlock*)&entry,TRUE);
